@@ -457,7 +457,23 @@ func run(seed int64, n int, out string, args []string) {
 	}
 	for i := 0; i < n/6; i++ {
 		ws := genOpxWords(g)
-		plan = append(plan, job{vets: []vetItem{{"SELECT " + strings.Join(ws, " "), false, false}}, run: func() { opxCase(o, ws) }})
+		plan = append(plan, job{vets: []vetItem{{"SELECT " + wordsText(ws), false, false}}, run: func() { opxCase(o, ws) }})
+	}
+	for _, w := range lblWitnesses {
+		ws := strings.Fields(w)
+		plan = append(plan, job{vets: []vetItem{{"SELECT " + wordsText(ws), false, false}}, run: func() { ps.lblCase(ws) }})
+	}
+	for i := 0; i < n/10; i++ {
+		ws := genLblWords(g)
+		plan = append(plan, job{vets: []vetItem{{"SELECT " + wordsText(ws), false, false}}, run: func() { ps.lblCase(ws) }})
+		if i%3 == 0 {
+			// one expression without column references: the text an error message embeds
+			saved := opIdentMax
+			opIdentMax = 0
+			ms, k := genOpTree(g, 1+g.Intn(3)).words(), i/3
+			opIdentMax = saved
+			plan = append(plan, job{vets: []vetItem{{"SELECT " + wordsText(ms), false, false}}, run: func() { ps.msgCase(ms, k) }})
+		}
 	}
 	for i := 0; i < n/6; i++ {
 		text := genSelText(g)
